@@ -6,7 +6,8 @@ completion); the driver runs the repaired machine the same way (`runThread` on a
 prints the same canonical line.  Case lines:
 
   reset <online01> <kick01>        new proxy with that configuration            impl `-`
-  new <i> <Name> <id>              declares connection i (ASCII name, numeric UUID)   impl `-`
+  new <i> <Name> <id> <o>          declares connection i (ASCII name, numeric UUID, o = its player.OnlineMode():
+                                   generated independently of the proxy's mode — forced online/offline logins)   impl `-`
   canreg <i> | reg <i>             canRegisterConnection / registerConnection
   disc <i>                         i.Disconnect(reason) — closes i's connection, teardown runs inside
   racekick <i> <j>                 (kick mode, different UUIDs) i.Disconnect() and registerConnection(j) started
@@ -29,6 +30,7 @@ structure Decl where
   pid : Nat
   lname : String
   id : Nat
+  online : Bool := false   -- player.OnlineMode() of this connection
 
 structure DState where
   online : Bool := false
@@ -44,7 +46,8 @@ def DState.nameKey (d : DState) (n : String) : Nat := (d.nameKeys.findIdx? (· =
 def DState.cfg (d : DState) : Cfg :=
   { online := d.online, kickFlag := d.kick,
     nameOf := fun p => match d.decl p with | some x => d.nameKey x.lname | none => 1000000 + p,
-    idOf := fun p => match d.decl p with | some x => x.id | none => 1000000 + p }
+    idOf := fun p => match d.decl p with | some x => x.id | none => 1000000 + p,
+    onlineOf := fun p => match d.decl p with | some x => x.online | none => false }
 def DState.kickMode (d : DState) : Bool := d.online && d.kick
 
 def joinOr (xs : List String) : String := if xs.isEmpty then "-" else ",".intercalate xs
@@ -179,12 +182,12 @@ def callOf (d : DState) (op arg : String) : Option Call :=
 def dstep (d : DState) (c : Case) : DState × String × String :=
   match c.op, c.args with
   | "reset", [o, k] => ({ online := o == "1", kick := k == "1" }, "-", "-")
-  | "new", [i, name, id] =>
+  | "new", i :: name :: id :: rest =>
     match i.toNat?, id.toNat? with
     | some i, some id =>
       let ln := name.toLower
       let keys := if d.nameKeys.contains ln then d.nameKeys else d.nameKeys ++ [ln]
-      ({ d with decls := ⟨i, ln, id⟩ :: d.decls, nameKeys := keys }, "-", "-")
+      ({ d with decls := ⟨i, ln, id, rest.head? == some "1"⟩ :: d.decls, nameKeys := keys }, "-", "-")
     | _, _ => (d, "bad-op", "-")
   | "racekick", [a, b] =>
     -- i's connection closes while j registers, both parked at muP and released together: on the repaired
